@@ -2,6 +2,7 @@
   C03 — any change to the header invalidates the file before any output.
 -/
 import Proofs.FileDecrypt
+import Props.C01
 import Proofs.FormatTop
 namespace AgeModel
 namespace Props.C03
@@ -104,6 +105,11 @@ theorem wrong_mac_rejected (P : Prims) (ids : List Identity) (file' : Bytes) (hd
   simp only [Except.ok.injEq, Prod.mk.injEq] at hp2
   obtain ⟨rfl, rfl⟩ := hp2
   exact hbad i hi fk2 hik hmac
+
+/-- non-vacuity of `mac_gate` / `header_edit_reduction`: a concrete accepted file (toy primitives) -/
+example : ∃ ids file k payload c, decryptInit Prims.toy ids file = (.ok (k, payload), c) :=
+  let ⟨f, k, p, _, _, h⟩ := Props.C01.nonvacuous_roundtrip
+  ⟨_, f, k, p, 1, h⟩
 
 end Props.C03
 end AgeModel
